@@ -29,7 +29,7 @@ vars == <<slots, cap>>
 
 Dict == INSTANCE Dict
 
-FamilyNames == {"core", "cursor", "entry", "disjoint", "bulk", "fmt", "unchecked"}
+FamilyNames == {"core", "cursor", "entry", "disjoint", "bulk", "fmt", "unchecked", "clone", "serde"}
 
 Entries == [c : Classes, r : Vers, v : Vals]
 \* positional tagging of the pre-state; the unit values of a Set are not objects (tag 0)
@@ -90,6 +90,22 @@ BulkOps(ts) ==
   ELSE {[name |-> "from_iter", items |-> it] : it \in UNION {ItemSeqsOf(n) : n \in 0..(cap + MaxExtra)}}
        \cup {[name |-> "from_array", items |-> it] : it \in ItemSeqsOf(cap)}
 
+SubOps ==
+  IF Mode = "set"
+  THEN {[name |-> "none"], [name |-> "s_clear"]}
+       \cup {[name |-> "s_insert", k |-> ArgK(1, c, CHOOSE r \in Vers : TRUE)] : c \in Classes}
+       \cup {[name |-> "s_remove", c |-> c, form |-> 1] : c \in Classes}
+  ELSE {[name |-> "none"], [name |-> "clear"]}
+       \cup {[name |-> "insert", k |-> ArgK(1, c, CHOOSE r \in Vers : TRUE), v |-> ArgV(1, v)] : c \in Classes, v \in Vals}
+       \cup {[name |-> "remove", c |-> c, form |-> 1] : c \in Classes}
+       \cup {[name |-> "get_mut", c |-> c, form |-> 0, w |-> w] : c \in Classes, w \in Vals}
+CloneOps(ts) ==
+  {[name |-> "clone", then |-> t, on |-> o, survivor |-> sv] : t \in SubOps, o \in {"orig", "copy"}, sv \in {"orig", "copy"}}
+
+\* target capacities: exactly enough, the source capacity, more than the source capacity
+SerdeOps(ts) ==
+  {[name |-> "serde", fmt |-> f, m |-> m] : f \in {"json", "bincode"}, m \in {Len(ts), cap, cap + 1}}
+
 FmtOps(ts) == {[name |-> "fmt", style |-> st] : st \in {"debug", "alt", "display"}}
 
 SetCoreOps(ts) ==
@@ -112,6 +128,7 @@ SetBulkOps(ts) ==
 FamilyOps(ts) ==
   IF Mode = "set"
   THEN (IF "core" \in Family THEN SetCoreOps(ts) ELSE {}) \cup (IF "bulk" \in Family THEN SetBulkOps(ts) ELSE {})
+       \cup (IF "clone" \in Family THEN CloneOps(ts) ELSE {}) \cup (IF "serde" \in Family THEN SerdeOps(ts) ELSE {})
   ELSE (IF "core" \in Family THEN CoreOps(ts) ELSE {})
        \cup (IF "unchecked" \in Family THEN UncheckedOps(ts) ELSE {})
        \cup (IF "cursor" \in Family THEN CursorOps(ts) ELSE {})
@@ -119,6 +136,7 @@ FamilyOps(ts) ==
        \cup (IF "disjoint" \in Family THEN DisjointOps(ts) ELSE {})
        \cup (IF "bulk" \in Family THEN BulkOps(ts) ELSE {})
        \cup (IF "fmt" \in Family THEN FmtOps(ts) ELSE {})
+       \cup (IF "clone" \in Family THEN CloneOps(ts) ELSE {}) \cup (IF "serde" \in Family THEN SerdeOps(ts) ELSE {})
 
 \* --------------------------------------------------------- transitions --
 JS(e) == <<e.c, e.r, e.v>>
@@ -172,8 +190,10 @@ RefinesDict ==
 \* ownership conservation (C02): every key / value object that was stored,
 \* came in as an argument or was created by the call is afterwards in exactly
 \* one place: stored, handed to the caller, destroyed or (forget only) leaked
+RECURSIVE OwnedRetK(_, _), OwnedRetV(_, _)
 OwnedRetK(op, r) ==
-  CASE op.name \in {"insert_key_value", "remove_entry"} /\ r.ret[1] = "ent" -> {r.ret[2]}
+  CASE op.name = "clone" -> OwnedRetK(op.then, [ret |-> r.ret.then])
+    [] op.name \in {"insert_key_value", "remove_entry"} /\ r.ret[1] = "ent" -> {r.ret[2]}
     [] op.name \in {"s_replace", "s_take"} /\ r.ret[1] = "key" -> {r.ret[2]}
     [] op.name = "drain" \/ (op.name = "cursor" /\ op.kind \in {"into_iter", "into_keys"})
          -> {r.ret.yield[i][1] : i \in 1..Len(r.ret.yield)}
@@ -182,7 +202,8 @@ OwnedRetK(op, r) ==
     [] op.name = "entry" /\ op.m = "vac_into_key" /\ r.ret[1] = "vack" -> {r.ret[2]}
     [] OTHER -> {}
 OwnedRetV(op, r) ==
-  CASE op.name \in {"insert", "insert_unchecked", "remove"} /\ r.ret[1] = "val" -> {r.ret[2]}
+  CASE op.name = "clone" -> OwnedRetV(op.then, [ret |-> r.ret.then])
+    [] op.name \in {"insert", "insert_unchecked", "remove"} /\ r.ret[1] = "val" -> {r.ret[2]}
     [] op.name = "checked_insert" /\ r.ret[1] = "some_val" -> {r.ret[2]}
     [] op.name \in {"insert_key_value", "remove_entry"} /\ r.ret[1] = "ent" -> {r.ret[5]}
     [] op.name = "drain" \/ (op.name = "cursor" /\ op.kind = "into_iter")
@@ -191,13 +212,17 @@ OwnedRetV(op, r) ==
     [] op.name = "entry" /\ op.m \in {"occ_insert", "occ_remove"} /\ r.ret[1] = "occ" -> {r.ret[2]}
     [] op.name = "entry" /\ op.m = "occ_remove_entry" /\ r.ret[1] = "occ" -> {r.ret[5]}
     [] OTHER -> {}
+RECURSIVE ArgKT(_), ArgVT(_)
 ArgKT(op) ==
+  IF op.name = "clone" THEN ArgKT(op.then) ELSE
   IF "k" \in DOMAIN op THEN {op.k.kt}
   ELSE IF "items" \in DOMAIN op THEN {op.items[j].k.kt : j \in 1..Len(op.items)} ELSE {}
 ArgVT(op) ==
+  IF op.name = "clone" THEN ArgVT(op.then) ELSE
   (IF "v" \in DOMAIN op /\ (op.name # "entry" \/ op.m \in EntryMethodsV) THEN {op.v.vt}
    ELSE IF "items" \in DOMAIN op THEN {op.items[j].v.vt : j \in 1..Len(op.items)} ELSE {})
-NewVT(op, r) == IF op.name = "entry" /\ op.m = "or_default" /\ r.ret[1] \in {"vac", "panic"} THEN {FreshTag} ELSE {}
+NewKT(op, ts) == IF op.name = "clone" THEN KTags(CloneOf(ts)) ELSE {}
+NewVT(op, r) == IF op.name = "clone" THEN {x[4] : x \in SeqRange(r.ret.cl)} ELSE IF op.name = "entry" /\ op.m = "or_default" /\ r.ret[1] \in {"vac", "panic"} THEN {FreshTag} ELSE {}
 PairwiseDisjoint(ss) == \A i, j \in 1..Len(ss) : i < j => ss[i] \cap ss[j] = {}
 
 Conservation ==
@@ -210,7 +235,7 @@ Conservation ==
          kparts == <<KTags(r.post), OwnedRetK(op, r), r.dk, r.lk>>
          vparts == <<VTags(r.post) \ {0}, OwnedRetV(op, r) \ {0}, r.dv, r.lv>>
      IN /\ PairwiseDisjoint(kparts) /\ PairwiseDisjoint(vparts)
-        /\ UNION SeqRange(kparts) = preK \cup ArgKT(op)
+        /\ UNION SeqRange(kparts) = preK \cup ArgKT(op) \cup NewKT(op, ts)
         /\ UNION SeqRange(vparts) = ((preV \cup ArgVT(op) \cup NewVT(op, r)) \ {0})
 
 \* C18: inside its contract the unsafe fast path is the safe call, slot for slot
